@@ -182,9 +182,33 @@ func Check(c Case) ([]evid.Violation, info) {
 	} else {
 		req = drive.Request("GET", "/c4/"+c.Route, "", hdr, nil, 0)
 	}
+	// earlier traffic on the same mux (Cached rounds): an unrelated request whose body and reply are larger
+	// than anything the download handles - sent with the same Accept header but in the other codec, so that
+	// nothing negotiated for it may stick to the Accept value -, then the same download, then the
+	// unrelated request again
+	unrelated := func() *evid.Violation {
+		filler := strings.Repeat("scribble-", 8+(len(c.RawData)+len(c.Reply))/4)
+		big := []byte(`{"fString":"` + filler + `"}`)
+		h := http.Header{"Content-Type": {"application/json"}}
+		if c.ContentType == "" || c.ContentType == "application/json" {
+			bm := dynamicpb.NewMessage(md)
+			bm.Set(md.Fields().ByName("f_string"), protoreflect.ValueOfString(filler))
+			big, _ = proto.Marshal(bm)
+			h.Set("Content-Type", "application/protobuf")
+		}
+		if c.Accept != nil {
+			h["Accept"] = c.Accept
+		}
+		if r := drive.Serve(mux, drive.Request("POST", "/c4/plain", "", h, bytes.NewReader(big), int64(len(big)))); r.Panic != nil {
+			v := evid.V("panic", r.PanicSig(), "panic: %v", r.Panic)
+			return &v
+		}
+		return nil
+	}
 	for i := 0; i < c.Cached; i++ {
-		// earlier traffic on the same mux: the same download, then an unrelated request whose body and
-		// reply are larger than anything the download handled
+		if v := unrelated(); v != nil {
+			return []evid.Violation{*v}, info{}
+		}
 		warm := req.Clone(req.Context())
 		if c.Verb == "POST" {
 			b, _ := io.ReadAll(req.Body)
@@ -193,10 +217,8 @@ func Check(c Case) ([]evid.Violation, info) {
 		if r := drive.Serve(mux, warm); r.Panic != nil {
 			return []evid.Violation{evid.V("panic", r.PanicSig(), "panic: %v", r.Panic)}, info{}
 		}
-		big := []byte(`{"fString":"` + strings.Repeat("scribble-", 8+(len(c.RawData)+len(c.Reply))/4) + `"}`)
-		h := http.Header{"Content-Type": {"application/json"}}
-		if r := drive.Serve(mux, drive.Request("POST", "/c4/plain", "", h, bytes.NewReader(big), int64(len(big)))); r.Panic != nil {
-			return []evid.Violation{evid.V("panic", r.PanicSig(), "panic: %v", r.Panic)}, info{}
+		if v := unrelated(); v != nil {
+			return []evid.Violation{*v}, info{}
 		}
 	}
 	res := drive.Serve(mux, req)
